@@ -20,7 +20,10 @@ def jobs(rng, thorough):
 def jobs_slow(rng, thorough):
     """second pass, judged by the monitor only: some writes block inside the driver (write duration is not part of the L4 model)"""
     n = 6000 if thorough else 120
-    return [(gen.conn_slow_writes(rng), rng.randrange(10 ** 9), rng.choice([0, 0, 3])) for _ in range(n)]
+    out = [(gen.conn_slow_writes(rng), rng.randrange(10 ** 9), rng.choice([0, 0, 3])) for _ in range(n)]
+    # one write fails after the driver accepted its bytes: whatever the sender does next, the following line is still 100 ms away
+    out += [(gen.conn_late_write_fault(rng), rng.randrange(10 ** 9), 0) for _ in range(n // 2)]
+    return out
 
 
 def jobs_stall(rng, thorough):
